@@ -143,6 +143,7 @@ def step1 (s : St) (line : String) : St × String :=
   | ["pargc"] => (s, "ok")
   | "ballast" :: _ => (s, "ok")
   | "substids" :: _ => (s, "ok")
+  | "satrace" :: _ => (s, "ok")
   | ["dropballast"] => (s, "ok")
   | ["nodes"] => (s, "-")
   | "mgr" :: rest =>
